@@ -42,8 +42,19 @@ func fingerprint(fn *ssa.Function) anchorFP {
 	if r := fn.Signature.Recv(); r != nil {
 		fp.Recv = types.TypeString(r.Type(), nil)
 	}
+	// parameter and result *types* only: renaming a parameter must not change the fingerprint
 	sig := fn.Signature
-	fp.Sig = types.TypeString(types.NewSignatureType(nil, nil, nil, sig.Params(), sig.Results(), sig.Variadic()), nil)
+	var ps, rs []string
+	for i := 0; i < sig.Params().Len(); i++ {
+		ps = append(ps, types.TypeString(sig.Params().At(i).Type(), nil))
+	}
+	for i := 0; i < sig.Results().Len(); i++ {
+		rs = append(rs, types.TypeString(sig.Results().At(i).Type(), nil))
+	}
+	fp.Sig = "func(" + strings.Join(ps, ", ") + ") (" + strings.Join(rs, ", ") + ")"
+	if sig.Variadic() {
+		fp.Sig += " variadic"
+	}
 	set := map[string]bool{}
 	var walk func(f *ssa.Function)
 	walk = func(f *ssa.Function) {
